@@ -42,6 +42,8 @@ for mp in sorted(glob.glob(os.path.join(here, 'seeded', '*', 'meta.json'))):
     m = json.load(open(mp))
     r = res.get(m['id'], {})
     caught = {True: 'yes', False: '**no**'}.get(r.get('caught'), 'not run')
+    if m.get('neutralised'):
+        caught += ' (neutralised: harmless on the current tree, reported with no-failing-input-found)'
     how = (r.get('how') or m.get('caught_by') or '').replace('|', '/')
     out.append(f"| {m['id']} | {m['property']} | {m['breaks'].replace('|', '/')} | {m['needs'].replace('|', '/')} | {caught} | {how} |")
 out.append('')
